@@ -384,6 +384,8 @@ func runC04(c *Ctx, r *Report) {
 	r.Doc("R-C04.3", "the new entry becomes the only head and is the entry inserted and returned")
 	r.Doc("R-C04.4", "the new entry's predecessors, clock, id and identity come from the log's current state")
 	r.Doc("R-C04.5", "reference budget ≤ requested pointer count")
+	r.Doc("R-C04.6", "the heads named as predecessors are still the log's heads when the entry is installed (one critical section)")
+	appendSingleSection(c, r, "R-C04.6", "a concurrent append or merge changes the heads in the window, so the new entry does not name the current heads and its clock does not dominate them")
 	clockF, headsF, identF := p.Field("", "IPFSLog", "Clock"), p.Field("", "IPFSLog", "heads"), p.Field("", "IPFSLog", "Identity")
 	me := &monoEngine{p: p, clockF: clockF, headsF: headsF, maxLike: map[*ssa.Function]int{}, accum: map[*ssa.Function]int{}}
 	app := p.Func("", "IPFSLog", "Append")
@@ -561,6 +563,21 @@ func runC04(c *Ctx, r *Report) {
 	for _, a := range createCall.Args {
 		if v, _ := p.FieldSel(app, a); v == identF {
 			okIdent = true
+		}
+		if id, ok := ast.Unparen(a).(*ast.Ident); ok {
+			// a local read from l.Identity (possibly through a helper's result is not accepted)
+			walkNoLit(app.Body, func(n ast.Node) bool {
+				if as, ok := n.(*ast.AssignStmt); ok && len(as.Lhs) == len(as.Rhs) {
+					for i, l := range as.Lhs {
+						if lid, ok := l.(*ast.Ident); ok && p.ObjOf(app, lid) == p.ObjOf(app, id) {
+							if v, _ := p.FieldSel(app, as.Rhs[i]); v == identF {
+								okIdent = true
+							}
+						}
+					}
+				}
+				return true
+			})
 		}
 	}
 	r.Check(okIdent, "R-C04.4", r.Key("R-C04.4", app, "identity-arg", ""), createCall.Pos(), "the entry is created (signed) with the log's identity", "the entry is not created with the log's own identity")
